@@ -212,9 +212,11 @@ def group_case(draw, tier="quick"):
     nv = draw(st.integers(1, 3))
     vals = []
     for _ in range(nv):
-        kind = draw(st.sampled_from(["int", "int", "float", "bool", "str", "date"]))
+        kind = draw(st.sampled_from(["int", "int", "float", "bool", "str", "date", "bigint", "bigfloat"]))
         el = {"int": st.integers(-5, 9), "float": st.sampled_from([0.5, 1.5, -2.0, 3.25, 0.0, 10.0]), "bool": st.booleans(),
-              "str": st.sampled_from(["a", "b", "c", ""]), "date": st.sampled_from(KEY_ALPHABETS["date"])}[kind]
+              "str": st.sampled_from(["a", "b", "c", ""]), "date": st.sampled_from(KEY_ALPHABETS["date"]),
+              "bigint": st.sampled_from([10 ** 8 + 1, 10 ** 8 + 2, 10 ** 8 + 3, 10 ** 8 + 7]),
+              "bigfloat": st.sampled_from([1e9 + 0.1, 1e9 + 0.2, 1e9 + 0.3, 1e9 + 0.75])}[kind]
         mode = draw(st.sampled_from(["no", "some", "some", "all"]))
         xs = draw(st.lists(el, min_size=n, max_size=n))
         if mode == "some":
@@ -227,7 +229,7 @@ def group_case(draw, tier="quick"):
         vals.append({"kind": kind, "name": name, "form": form, "values": xs})
     funcs = ["sum", "mean", "min", "max", "stdev", "count"]
     aggs = {}
-    numeric = [j for j, v in enumerate(vals) if v["kind"] in ("int", "float", "bool")]
+    numeric = [j for j, v in enumerate(vals) if v["kind"] in ("int", "float", "bool", "bigint", "bigfloat")]
     for f in draw(st.lists(st.sampled_from(funcs), min_size=0, max_size=6, unique=True)):
         pool = numeric if f in ("sum", "mean", "stdev") else list(range(nv))
         if not pool:
@@ -240,7 +242,7 @@ def group_case(draw, tier="quick"):
 
 
 KEY_NAMES = ["g0", "G 1", "g2"]
-NUMERIC = ("int", "float", "bool")
+NUMERIC = ("int", "float", "bool", "bigint", "bigfloat")
 
 
 def realise_group(case):
@@ -278,6 +280,34 @@ def realise_group(case):
             vspecs.append(cols[vpos[j]][0])
     key_tuples = [tuple(k["values"][i] for k in case["keys"]) for i in range(n)]
     return t, over, vspecs, key_tuples
+
+
+def group_call_args(case, over, vspecs, recorder=None):
+    """kwargs for aggregate/window built from the case (all requested aggregates + apply)"""
+    over_arg = over[0] if (case["single"] and len(over) == 1) else over
+    kw = {}
+    for f, idx in case["aggs"].items():
+        specs = [vspecs[j] for j in idx]
+        kw[f"{f}_over"] = specs[0] if (case["single"] and len(specs) == 1) else specs
+    if case["apply"] and recorder is not None:
+        kw["apply"] = {name: (vspecs[j], recorder) for name, j in case["apply"]}
+    return over_arg, kw
+
+
+def agg_tolerance(values):
+    """relative tolerance for mean/stdev comparisons: 1e-9, relaxed (never beyond 1e-3) for
+    large-magnitude data where any two valid algorithms differ by magnitude * epsilon"""
+    mx = max([abs(v) for v in values if isinstance(v, (int, float)) and not isinstance(v, bool)] + [1.0])
+    return min(1e-3, 1e-9 * mx)
+
+
+def agg_close(a, b, tol):
+    if a is None or b is None:
+        return a is None and b is None
+    if isinstance(a, complex) or isinstance(b, complex):
+        return False
+    import math
+    return math.isclose(a, b, rel_tol=tol, abs_tol=1e-12)
 
 
 # ------------------------------------------------------------------------------------------ hash-seed configurations
